@@ -88,6 +88,16 @@ def main(tier_):
                                   calls=[dict(op="resolve", path="d/t_" + kind, nofollow=True, api="rust"), dict(op="reopen", of=0, oflags=fl, api="rust")],
                                   meta=dict(g=dict(kind=kind, acc=acc, extra="", num=999, hist="host /proc over-mounted by an empty tmpfs", expect=dict(ok=True, ino=1)), api="rust", backend=fname, oflags=fl,
                                             may_fail=not private)))
+    # a fake host /proc with "self" but without "thread-self", and a thread with a private descriptor table: the base the
+    # library picks must be chosen inside the procfs instance it then uses
+    for kind in ("file", "dir"):
+        for fname, feat in scenarios.FEATS[:2]:
+            fl = ACC["RDONLY"] | O["NONBLOCK"]
+            cases.append(dict(id="procmount-thread|%s|%s" % (kind, fname), tree=TREE + [dict(id=20, p=2, n="decoy", k="file")], feat=feat, trace=False, cold=True,
+                              mounts=[dict(target="/proc", kind="tmpfs-selfonly", src="")],
+                              calls=[dict(op="reopen_in_thread", path="d/t_" + kind, decoy="root/decoy", oflags=fl)],
+                              meta=dict(g=dict(kind=kind, acc="RDONLY", extra="", num=999, hist="thread-private-fd-table, host /proc replaced by a tmpfs with only 'self'", expect=dict(ok=True, ino=1)),
+                                        api="rust", backend=fname, oflags=fl, thread=True)))
     # ... and a failing call in that environment is an ordinary error (the error paths pretty-print descriptors through /proc)
     for fname, feat in scenarios.FEATS:
         cases.append(dict(id="procmount|missing|%s" % fname, tree=TREE, feat=feat, trace=False, cold=True, mounts=[dict(target="/proc", kind="tmpfs", src="")],
